@@ -236,7 +236,8 @@ def seqLoop (cfg : Cfg) : Nat → Char → It → SeqSt → Option (It × SeqSt)
         if c = '[' then handlePosix it st.res st.endRange else none
       match posixTry with
       | some (it', res) =>
-        let st := { st with res := res, lastPosix := true }
+        -- a POSIX class cannot end a range: no range is pending anymore (fix: commit D27)
+        let st := { st with res := res, lastPosix := true, endRange := 0 }
         match it'.next with
         | none => none
         | some (c', it'') => seqLoop cfg fuel c' it'' st
